@@ -126,6 +126,7 @@ def check(ctx, report):
                    witness={'a': a, 'b': b})
     report.sample({'rule': 'C17.R1', 'members': len(names), 'pairs': len(ltm), 'triples': triples,
                    'chain': [n for n in sorted(names, key=lambda x: (rank[x][0], rank[x][1], rank[x][2] or 0))][:12]})
+    operator_table(ctx, report, cls, members, objs, fr, ltm, eqm, codes)
     # R2 structural
     decs = cls.decorators
     report.count('C17.R2', 4)
@@ -164,3 +165,71 @@ def spec_rank(spec, name, code):
             if (code >> 8) == fam['major'] and code != 0x0304:
                 return (i, fam['family'], (code & 0xff) if fam.get('ordered_by_minor') else None)
     return None
+
+
+def wire_bytes(ctx, cls, member_code):
+    """bytes TlsProtocolVersion.compose() writes for a member, folded from the extracted composer layout"""
+    from ..symeval import NotEvaluable, evaluate
+    from ..values import SelfV
+    cn = ctx.canon.canon(cls, 'compose')
+    out = b''
+
+    def leaf(v):
+        if isinstance(v, SelfV) and tuple(v.path) == ('version', 'value', 'code'):
+            return member_code
+        raise NotEvaluable(show(v))
+    for e in cn.elements:
+        if e.kind != 'u' or not isinstance(e.w, int):
+            raise NotEvaluable('composer element %s' % e.sig())
+        out += (evaluate(e.val, leaf) & ((1 << (8 * e.w)) - 1)).to_bytes(e.w, 'big' if e.order != 'le' else 'little')
+    return out
+
+
+def operator_table(ctx, report, cls, members, objs, fr, ltm, eqm, codes):
+    """R3: all six rich comparison operators agree with the (<, ==) matrix. functools.total_ordering only supplies the
+    operators that are *not already defined anywhere in the MRO*: an operator a base class defines explicitly is used as
+    it is, so it is tabulated on its own (wire bytes of compose() folded from the composer layout) and compared with what
+    total_ordering would have derived"""
+    from ..symeval import NotEvaluable, evaluate
+    from ..values import BytesV
+    it = ctx.interp
+    report.rule('C17.R3', 'every rich comparison operator in the MRO agrees with the (<, ==) matrix')
+    names = [m.name for m in members]
+    derived = {'__le__': lambda a, b: ltm[(a, b)] or eqm[(a, b)], '__gt__': lambda a, b: not ltm[(a, b)] and not eqm[(a, b)],
+               '__ge__': lambda a, b: not ltm[(a, b)], '__ne__': lambda a, b: not eqm[(a, b)]}
+    wires = {}
+
+    def leaf(v):
+        if isinstance(v, BytesV) and len(v.parts) == 1 and isinstance(v.parts[0], tuple) and v.parts[0][0] == 'nested' and isinstance(v.parts[0][1], ObjV):
+            m = v.parts[0][1].attrs.get('version')
+            if isinstance(m, EnumMember):
+                if m.name not in wires:
+                    wires[m.name] = wire_bytes(ctx, cls, codes[m.name])
+                return wires[m.name]
+        raise NotEvaluable(show(v))
+    for op, want in derived.items():
+        f = cls.resolve(op)
+        report.count('C17.R3')
+        if f is None or f.module.external:
+            continue        # supplied by total_ordering (or object.__ne__ = not __eq__): derived from the matrix by definition
+        report.touch(f)
+        bad = None
+        try:
+            for a in names:
+                for b in names:
+                    report.count('C17.R3')
+                    r = it.call_function(f, objs[a], [objs[b]], {}, fr)
+                    if not isinstance(r, bool):
+                        r = bool(evaluate(r, leaf))
+                    if r != want(a, b):
+                        bad = bad or (a, b, r)
+        except NotEvaluable as e:
+            report.add('C17.R3', '%s@operator[%s]' % (f.construct, op),
+                       '%s is defined explicitly (total_ordering will not derive it from __lt__) and cannot be folded to decide that it agrees with <: %s' % (op, e))
+            continue
+        if bad:
+            a, b, r = bad
+            report.add('C17.R3', '%s@operator[%s]' % (f.construct, op),
+                       '%s is defined in %s, so functools.total_ordering does not derive it: %s %s %s is %s while < and == say %s' % (
+                           op, f.cls.name if f.cls else '?', a, {'__le__': '<=', '__gt__': '>', '__ge__': '>=', '__ne__': '!='}[op], b, r, want(a, b)))
+    # the class's own __lt__ must be the one the matrix was computed from (an inherited explicit __lt__ is shadowed: fine)
